@@ -7,6 +7,7 @@ import (
 
 	"github.com/mmcloughlin/avo/build"
 	"github.com/mmcloughlin/avo/ir"
+	"github.com/mmcloughlin/avo/operand"
 	"github.com/mmcloughlin/avo/pass"
 	"github.com/mmcloughlin/avo/reg"
 	"github.com/mmcloughlin/avo/x86"
@@ -232,4 +233,40 @@ func aliasPairsKeptApart(c *Ctx) {
 		}
 	}
 	o.Plan.Stats["alias_pairs"] = len(pairs)
+}
+
+// basePointerViews: every view of the base pointer the register table marks as such (the flag is what
+// the frame-pointer rule of the pipeline keys on): a function writing through it gets a frame.
+func basePointerViews(c *Ctx) {
+	o := c.Out
+	for _, p := range reg.GeneralPurpose.Registers() {
+		if p.Info()&reg.BasePointer == 0 {
+			continue
+		}
+		var mv *ir.Instruction
+		var err error
+		switch p.Size() {
+		case 1:
+			mv, err = x86.MOVB(operand.U8(1), p)
+		case 2:
+			mv, err = x86.MOVW(operand.U16(1), p)
+		case 4:
+			mv, err = x86.MOVL(operand.U32(1), p)
+		default:
+			mv, err = x86.MOVQ(operand.U32(1), p)
+		}
+		if err != nil {
+			continue
+		}
+		fn := ir.NewFunction("f")
+		fn.Attributes = 4
+		fn.AddInstruction(mv)
+		fn.AddInstruction(&ir.Instruction{Opcode: "RET", IsTerminal: true})
+		f := ir.NewFile()
+		f.AddSection(fn)
+		idx := o.AddCase(Case{Key: "alias:bp-view", Desc: "a write through " + p.Asm() + " (" + fmt.Sprint(p.Size()) + " bytes), compiled", Input: map[string]any{"register": p.Asm(), "size": p.Size()}, Nontrivial: true})
+		if err := pass.Compile.Execute(f); err != nil || fn.FrameBytes() == 0 {
+			o.Plan.GoViolations = append(o.Plan.GoViolations, GoViolation{Key: "alias:bp-view-not-recognised", Desc: fmt.Sprintf("case %d: a %d-byte write through %s changes the base pointer register, but the compiled function has frame %d (error %v): the view is not treated as the register it aliases", idx, p.Size(), p.Asm(), fn.FrameBytes(), err), Replay: map[string]any{"register": p.Asm(), "size": p.Size()}})
+		}
+	}
 }
